@@ -43,10 +43,19 @@ Expected(op, a, b) ==
     [] op \in {"d_mul_v", "d_mul_dir"}     -> MatVec(a, b)
     [] op = "d_mul_sd"   -> MatMul(a, SymEmbed(b))
     [] op = "d_mul_d"    -> MatMul(a, b)
+    \* the direction on the left: b is the (axis-aligned) direction, a the vector; with two directions the second one is b rotated
+    [] op = "dir_cross_v"      -> Cross(b, a)
+    [] op = "dir_dyadic_v"     -> Dyadic(b, a)
+    [] op = "dir_dyadic_dir"   -> Dyadic(b, <<b[2], b[3], b[1]>>)
+    [] op = "pdir_cross_pv"    -> <<0, 0, PCrossZ(b, a)>>
+    [] op = "pdir_dyadic_pv"   -> PDyadic(b, a)
+    [] op = "pdir_dyadic_pdir" -> PDyadic(b, <<b[2], b[1]>>)
+    [] op = "sd_transpose"     -> a                                        \* a symmetric dyad is its own transpose
 AllOps == {"pv_magsq", "pv_embed", "v_project", "pv_dot", "pv_cross", "pv_dyadic", "pv_dot_pdir", "pv_cross_pdir", "pv_dyadic_pdir",
            "v_from_magnitude_direction", "pv_from_magnitude_direction", "v_magsq", "v_dot", "v_cross", "v_dyadic", "v_dot_dir", "v_cross_dir", "v_dyadic_dir", "sd_trace", "sd_det", "sd_cof",
            "sd_adj", "sd_embed", "d_trace", "d_det", "d_transpose", "d_cof", "d_adj", "sd_mul_pv", "sd_mul_v", "sd_mul_sd", "sd_mul_d",
-           "d_mul_pv", "d_mul_v", "d_mul_sd", "d_mul_d", "sd_mul_dir", "d_mul_dir", "sd_mul_pdir", "d_mul_pdir"}
+           "d_mul_pv", "d_mul_v", "d_mul_sd", "d_mul_d", "sd_mul_dir", "d_mul_dir", "sd_mul_pdir", "d_mul_pdir",
+           "dir_cross_v", "dir_dyadic_v", "dir_dyadic_dir", "pdir_cross_pv", "pdir_dyadic_pv", "pdir_dyadic_pdir", "sd_transpose"}
 TOp == LET r == Events[l] IN
   /\ IsEvent("T") /\ r.op \in AllOps /\ r.num \in {"f", "d", "l"}
   /\ Flag(r.integral /\ r.out = Expected(r.op, r.a, r.b), [cls |-> "tensor_op", op |-> r.op, num |-> r.num, a |-> r.a, b |-> r.b, out |-> r.out])
